@@ -358,6 +358,77 @@ func loopback(rng *rand.Rand, n int) {
 	}
 }
 
+// loopbackConcurrent: the library itself sends from several goroutines on one
+// socket (Send, acknowledgements, heartbeats); every datagram that leaves must
+// still be one whole frame whose header length equals the datagram length.
+func loopbackConcurrent(n int) {
+	pc, err := net.ListenUDP("udp4", &net.UDPAddr{IP: net.IPv4(127, 0, 0, 1)})
+	if err != nil {
+		return
+	}
+	defer pc.Close()
+	pc.SetReadBuffer(8 << 20)
+	sock, err := knxnet.DialTunnelUDP(pc.LocalAddr().String())
+	if err != nil {
+		return
+	}
+	defer sock.Close()
+	fa := &spec.Frame{Service: spec.SvcTunnelRes, Channel: 1, Seq: 2, Status: 0}
+	fb := &spec.Frame{Service: spec.SvcTunnelReq, Channel: 3, Seq: 4, Cemi: &spec.Cemi{Code: spec.McLDataReq, Ctrl1: 0xbc, Ctrl2: 0xe0, Src: 1, Dst: 2, TPDU: spec.TPDU{Cmd: 2, Data: bytes.Repeat([]byte{0x11}, 19)}}}
+	fc := &spec.Frame{Service: spec.SvcConnStateReq, Channel: 5, Control: spec.HPAI{Proto: 1, IP: [4]byte{10, 0, 0, 1}, Port: 3671}}
+	frames := []*spec.Frame{fa, fb, fc}
+	want := map[string]bool{}
+	for _, f := range frames {
+		want[string(f.Encode())] = true
+	}
+	var wg sync.WaitGroup
+	for g, f := range frames {
+		wg.Add(1)
+		go func(g int, v knxnet.ServicePackable) {
+			defer wg.Done()
+			for i := 0; i < n; i++ {
+				sock.Send(v)
+				if i%64 == 63 {
+					time.Sleep(100 * time.Microsecond)
+				}
+			}
+		}(g, libx.Service(f))
+	}
+	done := make(chan struct{})
+	go func() { wg.Wait(); close(done) }()
+	buf := make([]byte, 4096)
+	bad := 0
+	got := 0
+	for {
+		pc.SetReadDeadline(time.Now().Add(300 * time.Millisecond))
+		m, _, err := pc.ReadFromUDP(buf)
+		if err != nil {
+			select {
+			case <-done:
+				r.Eval(1)
+				r.Observe("concurrent_loopback_datagrams_compared", got)
+				return
+			default:
+				continue
+			}
+		}
+		got++
+		atomic.AddInt64(&nDatagrams, 1)
+		d := buf[:m]
+		if m < 6 || int(d[4])<<8|int(d[5]) != m || !want[string(d)] {
+			bad++
+			if bad <= 3 {
+				hl := -1
+				if m >= 6 {
+					hl = int(d[4])<<8 | int(d[5])
+				}
+				r.Violate("socket.datagram-concurrent", nil, map[string]interface{}{"datagram": hex.EncodeToString(d)},
+					"three goroutines sending on one socket: a datagram of %d bytes left the socket whose header announces %d bytes / whose bytes are not one of the three frames sent", m, hl)
+			}
+		}
+	}
+}
+
 func run(rr *mon.Run) {
 	r = rr
 	r.Rule("every C02-style generated frame (all encodable services x cEMI kinds) and each of its sub-structures (HostInfo, DIBs, service family, cEMI message, LData, Info, transport unit), plus oversize parts (info 256..600, application data 256..600 and empty, names 30..80 Latin-1 characters, non-Latin-1 / invalid UTF-8 names); each packed 4 times (0x00 / 0xFF / random pre-fill with capacity reaching into a 64-byte rear guard, then exact capacity). Distinct = distinct (structure kind, written bytes) pairs; non-trivial = all (each writes a different byte string)")
@@ -389,6 +460,7 @@ func run(rr *mon.Run) {
 	}
 	wg.Wait()
 	loopback(rand.New(rand.NewSource(r.Seed()+77)), r.Pick(600, 20000))
+	loopbackConcurrent(r.Pick(20000, 400000))
 	r.Observe("frames", atomic.LoadInt64(&nFrames))
 	r.Observe("packables_checked", atomic.LoadInt64(&nPackables))
 	r.Observe("oversize_frames", atomic.LoadInt64(&nOversize))
